@@ -17,7 +17,7 @@ ID = 'C01'
 PROFILES = ['debug', 'release']
 CASE_TIMEOUT = 1500
 THEOREMS = ['C01_no_panic', 'C01_no_panic_release', 'C01_terminates', 'C01_two_outcomes', 'C01_dump_root_terminates',
-            'C01_shipped_spec_wellformed', 'C01_panic_sources', 'C01_root_missing_rejected', 'C01_full_no_panic', 'C01_full_two_outcomes']
+            'C01_shipped_spec_wellformed', 'C01_panic_sources', 'C01_root_missing_rejected', 'C01_full_no_panic', 'C01_full_two_outcomes', 'C01_bytes_two_outcomes', 'C01_bytes_no_panic_release']
 MODEL_PER_PROFILE = True
 RULE = ('structured: random catalogs (1..5 pages, nested page-tree nodes, fonts, 1..3 content streams per page, '
         'filters none/Flate/AHx/A85 and chains, predictors) x hostile mutation of ONE point: each numeric parameter '
@@ -546,6 +546,18 @@ def ctx_text(objs):
     return ';'.join(parts) or '-'
 
 
+def y_case(seed, objs, root):
+    """a bytes-only modelled case: the model (coq/Model/Full.v full_bytes) gets the rendered file and the zlib oracle
+    table, nothing else — it computes the loader's abstraction from the bytes with the parser models."""
+    data = render_simple(random.Random(seed), objs, root)
+    if len(data) > 2600:
+        return None
+    toks = ['Y', data.hex()]
+    for k, o, t in dict((e[0], e) for e in ORACLE).values():
+        toks += [k, o, t]
+    return ' '.join(toks)
+
+
 def m_case(seed, objs, root):
     """a modelled case, or None if the document is outside what the pipeline model covers (it would not
     load to exactly `objs`): nesting close to the parser's depth bound, duplicate dictionary keys."""
@@ -586,11 +598,19 @@ def cases(tier, rng):
         seed = rng.getrandbits(32)
         base = render_simple(random.Random(seed), objs, root)
         out.append(m_case(seed, objs, root) or ('B ' + base.hex()))
+        y = y_case(seed, objs, root) if m_case(seed, objs, root) else None
+        if y:
+            out.append(y)
         # object-level hostile mutations
         for _ in range(nmut):
             o2, what = mutate_doc(rng, objs)
             try:
-                out.append(m_case(seed, o2, root) or ('B ' + render_simple(random.Random(seed), o2, root).hex()))
+                mc = m_case(seed, o2, root)
+                out.append(mc or ('B ' + render_simple(random.Random(seed), o2, root).hex()))
+                if mc and rng.random() < (0.3 if big else 0.08):
+                    y = y_case(seed, o2, root)
+                    if y:
+                        out.append(y)
             except RecursionError:
                 pass
         # loader-level mutations
@@ -639,7 +659,7 @@ def cases(tier, rng):
 
 
 def comparable(case, mobs=None):
-    return case.startswith('M ') and mobs != 'unmodelled'
+    return case[:2] in ('M ', 'Y ') and mobs != 'unmodelled'
 
 
 def oracle(case, obs, prof):
